@@ -12,7 +12,9 @@ A session program is dict(name=..., flags={db_session kwargs}, ops=[op, ...]); o
   ('getby', o, attr)         A.get(id=o, <attr>=<fixture value>)                      idem; the session stops quietly on a miss
   ('r', o, attr)             value = obj.attr                                        (noted as read)
   ('w', o, attr, src)        obj.attr = F_t(value read from obj.src)  /  src None: a constant of thread t (blind write)
-  ('del', o) ('new', o) ('flush',) ('load', o) ('commit',)
+  ('del', o) ('new', o) ('flush',) ('commit',)
+  ('refetch', o)             select(a for a in A if a.id == o)[:]  - the row is read again and compared with what the
+                             session has read (obj.load() would be a no-op: it only loads attributes not loaded yet)
 
 Thread t's functions: int v -> v + 10**t, str v -> v + 'abc'[t], float v -> v + 2**t; constants
 1000*(t+1), 'B<t>', 100.0*(t+1): every committed value identifies the sessions that produced it.
@@ -128,10 +130,10 @@ def interpret(t, prog, orm, A, note):
             objs[o] = A(**new_row(ti, o)); note('new', o)
         elif k == 'flush': orm.flush()
         elif k == 'commit': orm.commit()
-        elif k == 'load':
+        elif k == 'refetch':
             o = op[1]
             if o not in objs: objs[o] = A[o]
-            objs[o].load()
+            orm.select('a for a in A if a.id == o', {'A': A, 'o': o})[:]
         else: raise core.HarnessError('unknown op %r' % (op,))
 
 def body_of(prog):
@@ -291,7 +293,7 @@ def mon_spurious(v, counters):
         counters[r['cls']] = counters.get(r['cls'], 0) + 1
         control = CONTROL_OCE if r['cls'] == 'OptimisticCheckError' else CONTROL_URE
         touched = set(d[1] for _, d in v.notes[t] if d[0] in ('r', 'w', 'del', 'lock'))
-        touched |= set(op[1] for op in v.progs[t]['ops'] if op[0] in ('get', 'r', 'w', 'del', 'load', 'getfu', 'selfu', 'getby'))
+        touched |= set(op[1] for op in v.progs[t]['ops'] if op[0] in ('get', 'r', 'w', 'del', 'refetch', 'getfu', 'selfu', 'getby'))
         if any(op[0] == 'selq' for op in v.progs[t]['ops']): touched |= set(FIXTURE)
         justified = False
         for j in v.change_steps:
@@ -334,7 +336,7 @@ def mon_lock_window(v, counters):
             for j in v.change_steps:
                 if start < j <= end and v.x.trace[j][0] != t and any(oo == o for oo, _ in changed_columns(v.rows[j], v.rows[j + 1])):
                     u = v.x.trace[j][0]
-                    out.append(('locked-row-overwritten|%s|by=%s' % (sclass(v.progs[t]), sclass(v.progs[u])),
+                    out.append(('locked-row-overwritten|%s' % sclass(v.progs[t]),
                                 'T%d (%s) had A[%s] locked/read since step %d and ended at step %d, but T%d (%s) committed a change to it at step %d'
                                 % (t, v.progs[t]['name'], o, start, end, u, v.progs[u]['name'], j)))
                     break
